@@ -5,6 +5,7 @@ import (
 	"go/token"
 	"go/types"
 	"regexp/syntax"
+	"sort"
 	"strings"
 
 	"golang.org/x/tools/go/ssa"
@@ -568,8 +569,48 @@ func (c *Ctx) a3Loop(l *mapLoop) []a3Finding {
 			if nested {
 				continue
 			}
-			if rv, ok := a3DerivedKeyTable[fn]; ok {
-				if pc, _ := producer(k, mu); pc != nil && calleeName(pc) == rv[0] {
+			rv, reviewed := a3DerivedKeyTable[fn]
+			if !reviewed {
+				// an unexported helper that serves only a reviewed function inherits its entry
+				var names []string
+				for n := range a3DerivedKeyTable {
+					names = append(names, n)
+				}
+				sort.Strings(names)
+				for _, n := range names {
+					if c.isOrServesOnly(l.f, n) {
+						rv, reviewed = a3DerivedKeyTable[n], true
+					}
+				}
+			}
+			if reviewed {
+				// the key is the reviewed transform of the current key, or a phi of that and of values that do not
+				// depend on the iteration
+				okKey := true
+				leaves := 0
+				seenK := map[ssa.Value]bool{}
+				var walk func(v ssa.Value)
+				walk = func(v ssa.Value) {
+					if seenK[v] {
+						return
+					}
+					seenK[v] = true
+					if ph, isPhi := v.(*ssa.Phi); isPhi && l.body[ph.Block()] {
+						for _, e := range ph.Edges {
+							walk(e)
+						}
+						return
+					}
+					if !l.fromIter(v) {
+						return
+					}
+					leaves++
+					if pc, _ := producer(v, mu); pc == nil || calleeName(pc) != rv[0] {
+						okKey = false
+					}
+				}
+				walk(k)
+				if okKey && leaves > 0 {
 					out = append(out, a3Finding{"", "insertion under " + rv[0] + "(current key)", "reviewed: " + rv[1], mu, "ok"})
 					continue
 				}
